@@ -88,14 +88,18 @@ Fixpoint extend_tab (t : tab) (L : list tx) (extra : list (list N)) : tab :=
   end.
 
 (** positional assembly: [ds] = digests of the members; header := first digest,
-    next of member i := digest of member i+1, the last member keeps its next *)
+    next of member i := digest of member i+1, the last member has no next *)
 Fixpoint assemble_next (L : list tx) (ds : list (list N)) : list tx :=
   match L with
   | [] => []
   | t :: rest =>
-      match rest, tl ds with
-      | _ :: _, d1 :: _ => set_next d1 t :: assemble_next rest (tl ds)
-      | _, _ => t :: assemble_next rest (tl ds)
+      match rest with
+      | [] => [set_next [] t]
+      | _ :: _ =>
+          match tl ds with
+          | d1 :: _ => set_next d1 t :: assemble_next rest (tl ds)
+          | [] => t :: assemble_next rest []
+          end
       end
   end.
 Definition assemble (L : list tx) (ds : list (list N)) : list tx :=
